@@ -909,6 +909,9 @@ func region(l *layout, at int) string {
 	case at < l.CodeEnd:
 		return "code"
 	case at < l.CodeEnd+5:
+		if l.CodeEnd == l.CodeStart {
+			return "checksum-of-codeless-entry"
+		}
 		return "checksum"
 	}
 	return "sourcemap"
